@@ -69,6 +69,16 @@ def gen_specs(run):
             st = gen.stmt_of(mem)
             st["commit"][0], st["commit"][1] = st["commit"][1], st["commit"][0]
             add({"proof": 0, "stmt": st, "ctx": mem["ctx"]}, "V.swap", 0)
+        if m >= 4:
+            # statements in which neighbouring commitments are EQUAL (the same opening twice): each position is a datum of its own — moving the boundary of a
+            # run ([A,A,B,B] -> [A,B,B,B] / [A,A,A,B]) must change every challenge; compared pairwise like the promise pairs
+            st0 = gen.stmt_of(mem)
+            A_, B_ = st0["commit"][0], st0["commit"][m - 1]
+            runs = [A_] * (m // 2) + [B_] * (m - m // 2)
+            for name, vec in (("runs", runs), ("boundary-1", [A_] * (m // 2 - 1) + [B_] * (m - m // 2 + 1)), ("boundary+1", [A_] * (m // 2 + 1) + [B_] * (m - m // 2 - 1))):
+                st = gen.stmt_of(mem)
+                st["commit"] = list(vec)
+                add({"proof": 0, "stmt": st, "ctx": mem["ctx"]}, f"run:{name}", 0)
         # promise encodings must be injective over the whole u64 range: neighbouring values at the top, in the middle and at the bottom of what the
         # bit length admits (a promise beyond it is refused before any challenge is drawn), compared with each other rather than with the base run
         top = (1 << 64) - 1 if b == 64 else (1 << b) - 1
@@ -159,6 +169,19 @@ def oracle(run, s, o):
     pending = {}
     for (tag, first), vo in zip(s["_tags"][1:], o["verifies"][1:]):
         if vo["result"].startswith("unavailable"):
+            continue
+        if tag.startswith("run:"):
+            cs = chals_of(vo)
+            pending.setdefault("runs", []).append((tag[4:], cs))
+            if len(pending["runs"]) == 3:
+                (n0, c0), (n1, c1), (n2, c2) = pending.pop("runs")
+                run.count(["c04runs", b, m, T], {"bits": b, "m": m, "T": T, "check": "statements with runs of equal adjacent commitments, run boundary moved"})
+                run.bump("equal-neighbour commitment vectors")
+                for (na, ca), (nb_, cb) in (((n0, c0), (n1, c1)), ((n0, c0), (n2, c2)), ((n1, c1), (n2, c2))):
+                    if not ca or len(ca) != len(cb) or any(x == y for x, y in zip(ca, cb)):
+                        run.violation(f"two statements that differ in one commitment (runs of equal neighbouring commitments, '{na}' vs '{nb_}') give an equal challenge "
+                                      f"(bits={b}, m={m}, T={T}): a commitment equal to its neighbour is not bound at its own position", rp)
+                        break
             continue
         if tag.startswith("pair"):
             half, j, x, y = tag[4:].split(":")
